@@ -1007,8 +1007,9 @@ func (h *histState) accept(impl string, kind string) func(string) bool {
 		default:
 			ok = jsonEqual(impl, m) || (kind == "distinct" && distinctEqual(impl, m))
 			if !ok && h.errClassLoose {
-				isErr := func(s string) bool { return s == `{"err":"err"}` || s == `{"err":"dup"}` }
-				ok = isErr(impl) && isErr(m)
+				// compare with the error CLASS erased (also inside insertMany / bulkWrite replies)
+				loose := func(s string) string { return strings.ReplaceAll(s, `"dup"`, `"err"`) }
+				ok = jsonEqual(loose(impl), loose(m))
 			}
 		}
 		if !ok {
